@@ -141,7 +141,11 @@ def exec_enum_trees(trace, ctx):
                 before = pos.copy()
                 arr = pos.copy()
                 try:
-                    out = move_mol_atom(arr, tb, atom_index=moved, displ=d.copy())
+                    if (idx + moved) % 5 == 1:
+                        out = move_mol_atom(arr.tolist(), tb, atom_index=moved, displ=[float(x) for x in d])   # plain lists
+                        arr = before.copy()
+                    else:
+                        out = move_mol_atom(arr, tb, atom_index=moved, displ=d.copy())
                 except Exception as e:
                     ctx.violate("C07", "move-raised", f"tree #{idx} on {n} atoms, moved atom {moved}: {type(e).__name__}: {e}")
                     return
@@ -357,6 +361,20 @@ def exec_rotations(trace, ctx):
             Mab = np.array(rotation_matrix(arg(axis), theta + b), dtype=float)
             Mscaled = np.array(rotation_matrix(arg(axis * rng.choice([1e-3, 7.0, 1e4])), theta), dtype=float)
             Mlist = np.array(rotation_matrix(list(axis), theta), dtype=float) if rng.random() < 0.2 else M
+            if rep % 8 == 0:
+                # other argument forms of the same axis: tuple, integer array (coordinate axes), float32 (exactly
+                # representable values only)
+                iax = np.zeros(3, dtype=np.int64)
+                iax[rng.randrange(3)] = rng.choice([1, -1, 3])
+                Mi = np.array(rotation_matrix(iax, theta), dtype=float)
+                Mf = np.array(rotation_matrix(iax.astype(float), theta), dtype=float)
+                Mt = np.array(rotation_matrix(tuple(float(x) for x in iax), theta), dtype=float)
+                M32 = np.array(rotation_matrix(iax.astype(np.float32), theta), dtype=float)
+                if max(np.max(np.abs(Mi - Mf)), np.max(np.abs(Mt - Mf)), np.max(np.abs(M32 - Mf))) > tol:
+                    ctx.violate("C17", "rotation-argument-form", f"the matrix for axis {iax.tolist()} depends on whether the axis "
+                                                                 f"is given as int array / tuple / float32 / float64")
+                check_rotation(ctx, iax.astype(float), theta, Mi, tol)
+                ctx.probe("axis_argument_forms")
         except Exception as e:
             ctx.violate("C17", "rotation-raised", f"rotation_matrix raised {type(e).__name__}: {e}")
             return
